@@ -33,7 +33,22 @@ func (mb *mbox) newMessage() (*Message, error) {
 	}
 	date := time.Now()
 	id := generateID(date)
+	// The counter behind generateID restarts with the process: after a restart within the same
+	// second the ID may already be taken in this mailbox.
+	for mb.hasID(id) {
+		id = generateID(date)
+	}
 	return &Message{mailbox: mb, Fid: id, Fdate: date}, nil
+}
+
+// hasID reports whether the (loaded) index lists a message with this ID.
+func (mb *mbox) hasID(id string) bool {
+	for _, m := range mb.messages {
+		if m.Fid == id {
+			return true
+		}
+	}
+	return false
 }
 
 // Mailbox returns the name of the mailbox this message resides in.
